@@ -103,6 +103,12 @@ CHECKS = {
         text="Decides: every constructor taking rotation data reaches the validating constructor; with assertions on each acceptance test is `!(|norm(slice)-1| < eps)` -> invalid_argument and with NDEBUG none raises; the validated slice equals the slice normalize() rescales and the asSO3()/complex accessors read; coefficient-level constructors followed by translation()/quat()/x()...linearVelocity()/t() give back exactly the supplied quantities (symbolic); cast re-normalises; transform() and hat() matrices have consistent sizes. Does not decide orthonormality of rotation(), wrap-around, gimbal cases, threshold behaviour for specific values.",
         note="A genuine defect found by the size witness (Rn::Transformation NxN) was repaired by a fix: commit.",
     ),
+    "C12": dict(
+        level="other", design="3/C12",
+        technique="static analysis: compile-witness matrix over a forward-mode dual-number scalar (decided by the type checker), AST genericity lint on template patterns, functor witnesses",
+        text="Decides the preconditions for scalar genericity, each a necessary condition: every documented API entry (Random family and Dual->float casts exempt, with reason) instantiates for a dual-number scalar with the ceres::Jet interface on owning, Map and Map<const> operands of 8 group variants (3900+ cells); inside function templates there is no concrete-scalar Eigen type, no std::-qualified math call on a dependent argument (ADL must find the dual overloads) and no double/float local receiving group data; the Plus/Minus, objective and constraint functors instantiate through raw-pointer views for double and the dual scalar. Does not decide that the dual parts equal the analytic Jacobians or that float agrees with double.",
+        note="Neither ceres nor autodiff is installed: /verif/witness/dual.h models their scalar interface. A genuine defect found here (CeresObjectiveFunctor::setTargetState const) was repaired by a fix: commit.",
+    ),
 }
 
 NOT_APPLICABLE = {
